@@ -10,6 +10,8 @@ def run(ctx):
     go_chain(ctx, want=('go.chain', 'go.capacity'))
     sort_functions(ctx)
     sort_comparators(ctx)
+    from ..scen_kernels2 import kernels2
+    kernels2(ctx, names=['<', '<=', '>', '>='])      # the comparison functions apply the value order to (first, second) in this order
     value_order_arms(ctx)         # first --sort-by innermost => runs last => most significant under stable sorting
     specs = [('k_number_order_axioms', 'number-order-axioms', 'Ord for NumberValue: antisymmetric, reflexive, cmp==Equal <=> ==, agrees with the real order (parser normal form, |n| < 2^53 or non-integral)'),
              ('k_scalar_rank_and_eq_hash', 'scalar-rank', 'null < false < true < strings < numbers; cmp==Equal <=> ==; Eq => equal hash transcript')]
